@@ -159,11 +159,40 @@ fn verif_native_compile_roundtrip() {
         if bytes[0..2] != orig.to_be_bytes() { fail(format!("first word {:02x?}, expected origin {:04x} big-endian", &bytes[0..2], orig)); }
         let (c1, out1) = run_lace(&["run", "-m", asm.to_str().unwrap()]).unwrap();
         let (c2, out2) = run_lace(&["run", "-m", obj.to_str().unwrap()]).unwrap();
-        let tail = |o: &Vec<u8>| { let s = String::from_utf8_lossy(o).to_string(); s.lines().filter(|l| !l.contains("target") && !l.contains("emitted binary")).collect::<Vec<_>>().join("\n") };
-        if c1 != c2 || tail(&out1) != tail(&out2) { fail(format!("running the source: status {} output {:?}; running the object file: status {} output {:?}", c1, tail(&out1), c2, tail(&out2))); }
+        // what the program printed: each run minus what the same command prints for a program that only halts (same paths)
+        std::fs::write(&asm, "halt\n").unwrap();
+        let obj0 = dir.join("p0.lc3");
+        let _ = run_lace(&["compile", asm.to_str().unwrap(), obj0.to_str().unwrap()]);
+        let saved = std::fs::read(&obj).unwrap_or_default();
+        let _ = std::fs::copy(&obj0, &obj);
+        let b1 = run_lace(&["run", "-m", asm.to_str().unwrap()]).map(|r| String::from_utf8_lossy(&r.1).to_string()).unwrap_or_default();
+        let b2 = run_lace(&["run", "-m", obj.to_str().unwrap()]).map(|r| String::from_utf8_lossy(&r.1).to_string()).unwrap_or_default();
+        std::fs::write(&obj, &saved).unwrap();
+        let tail = |o: &Vec<u8>, b: &String| own_middle(&String::from_utf8_lossy(o), b).trim_end().to_string();
+        if c1 != c2 || tail(&out1, &b1) != tail(&out2, &b2) { fail(format!("running the source: status {} output {:?}; running the object file: status {} output {:?}", c1, tail(&out1, &b1), c2, tail(&out2, &b2))); }
     }
     let _ = std::fs::remove_dir_all(&dir);
     verif_out(&format!("VERIF-NATIVE name={} evaluated={} distinct={}", name, evaluated, evaluated));
+}
+
+/// what the PROGRAM wrote: `out` without the longest prefix (and, for `own_middle`, suffix) it shares with `baseline`, the output
+/// of the same command line on a program / script that prints nothing (the banners name the file, so the baseline uses the same
+/// path). Independent of the wording of lace's own banner lines.
+fn own_output(out: &str, baseline: &str) -> String {
+    let n = out.chars().zip(baseline.chars()).take_while(|(a, b)| a == b).count();
+    out.chars().skip(n).collect()
+}
+fn own_middle(out: &str, baseline: &str) -> String {
+    let rest = own_output(out, baseline);
+    let base_rest = own_output(baseline, out);
+    let n = rest.chars().rev().zip(base_rest.chars().rev()).take_while(|(a, b)| a == b).count();
+    let keep = rest.chars().count() - n;
+    rest.chars().take(keep).collect()
+}
+/// baseline for `lace run -m <path>`: the same command on a program that only halts, at the same path
+fn run_baseline(path: &std::path::Path) -> String {
+    std::fs::write(path, "halt\n").unwrap();
+    run_lace_stdin(&["run", "-m", path.to_str().unwrap()], b"").map(|r| r.1).unwrap_or_default()
 }
 
 fn run_lace_stdin(args: &[&str], input: &[u8]) -> Option<(i32, String)> {
@@ -202,10 +231,10 @@ fn verif_native_trap_output() {
     for (src, input, want) in cases {
         evaluated += 1;
         let asm = dir.join("t.asm");
+        let base = run_baseline(&asm);
         std::fs::write(&asm, src).unwrap();
         let (code, out) = run_lace_stdin(&["run", "-m", asm.to_str().unwrap()], input.as_bytes()).expect("lace binary");
-        let body: String = out.lines().filter(|l| !l.contains("target") && !l.contains("emitted binary")).collect::<Vec<_>>().join("\n");
-        let body = body.trim_start_matches('\n');
+        let body = own_output(&out, &base);
         if code != 0 || !body.starts_with(want) {
             verif_out(&format!("VERIF-COUNTEREXAMPLE name={} input=program {:?} stdin {:?} detail=exit status {}, output {:?}, expected it to start with {:?}", name, src, input, code, body, want));
             panic!("violation");
@@ -217,10 +246,10 @@ fn verif_native_trap_output() {
         evaluated += 1;
         let asm = dir.join("t.asm");
         let src = "in\nputn\ngetc\nout\nhalt\n";
+        let base = run_baseline(&asm);
         std::fs::write(&asm, src).unwrap();
         let (code, out) = run_lace_stdin(&["run", "-m", asm.to_str().unwrap()], &[byte, b'Z']).expect("lace binary");
-        let body: String = out.lines().filter(|l| !l.contains("target") && !l.contains("emitted binary")).collect::<Vec<_>>().join("\n");
-        let body = body.trim_start_matches('\n');
+        let body = own_output(&out, &base);
         let mut chars = body.chars();
         let echo = chars.next();
         let rest: String = chars.collect();
@@ -457,13 +486,13 @@ fn verif_native_eval_refused_cli() {
     std::fs::write(&asm, "halt\n").unwrap();
     let texts = ["out r1", "getc r3", "in r0", "putn #1", "puts r0", "putsp r0", "reg r1", "trap x21 r0", "trap x20 #1", "trap x26 x26", "out out", "OUT R0"];
     let mut evaluated = 0u64;
+    // baseline: the same session without any eval (prints nothing of its own)
+    let base = run_lace_stdin(&["debug", "-m", "--command", "move r0 x0041; exit", asm.to_str().unwrap()], b"Q").map(|r| r.1).unwrap_or_default();
     for t in texts {
         evaluated += 1;
         let script = format!("move r0 x0041; eval {}; eval putn; exit", t);
         let (code, out) = run_lace_stdin(&["debug", "-m", "--command", &script, asm.to_str().unwrap()], b"Q").expect("lace binary");
-        // the program's own output sits between the "Running emitted binary" banner line and the "Completed" banner
-        let after = out.split("emitted binary\n").nth(1).unwrap_or("");
-        let body = after.split("Completed").next().unwrap_or("").to_string();
+        let body = own_middle(&out, &base);
         if code != 0 || body.trim() != "65" {
             verif_out(&format!("VERIF-COUNTEREXAMPLE name={} input=script {:?} stdin \"Q\" detail=exit status {}, program output {:?}; a refused eval prints nothing and leaves R0 = x41, so the output is exactly \"65\"", name, script, code, body.trim()));
             panic!("violation");
@@ -473,11 +502,6 @@ fn verif_native_eval_refused_cli() {
     verif_out(&format!("VERIF-NATIVE name={} evaluated={} distinct={}", name, evaluated, evaluated));
 }
 
-/// the program's own output: what sits between the "Running emitted binary" banner line and the "Completed" / "Halted" banners
-fn program_output(out: &str) -> String {
-    let after = out.split("emitted binary\n").nth(1).unwrap_or("");
-    after.split("Completed").next().unwrap_or("").trim_end().to_string()
-}
 
 /// C09 at the process level (observe_at: stdout and exit status): 3 programs (output + normal end; output then PC leaving user
 /// space = exit 238; a loop with PUTN) x 6 scripts of non-mutating commands (stepping, inspection, breakpoints that are passed):
@@ -498,13 +522,17 @@ fn verif_native_transparency_cli() {
     let mut evaluated = 0u64;
     for src in progs {
         let asm = dir.join("t.asm");
+        // baselines (same path, a program that only halts): what lace itself prints around the program's output in each mode
+        let base_run = run_baseline(&asm);
+        let base_dbg: Vec<String> = scripts.iter().map(|sc| run_lace_stdin(&["debug", "-m", "--command", sc, asm.to_str().unwrap()], b"").map(|r| r.1).unwrap_or_default()).collect();
         std::fs::write(&asm, src).unwrap();
         let (code0, out0) = run_lace_stdin(&["run", "-m", asm.to_str().unwrap()], b"").expect("lace binary");
-        for script in scripts {
+        for (k, script) in scripts.iter().enumerate() {
             evaluated += 1;
             let (code1, out1) = run_lace_stdin(&["debug", "-m", "--command", script, asm.to_str().unwrap()], b"").expect("lace binary");
-            if code0 != code1 || program_output(&out0) != program_output(&out1) {
-                verif_out(&format!("VERIF-COUNTEREXAMPLE name={} input=program {:?} script {:?} detail=run: exit {} output {:?}; debug: exit {} output {:?}", name, src, script, code0, program_output(&out0), code1, program_output(&out1)));
+            let (own0, own1) = (own_middle(&out0, &base_run), own_middle(&out1, &base_dbg[k]));
+            if code0 != code1 || own0.trim_end() != own1.trim_end() {
+                verif_out(&format!("VERIF-COUNTEREXAMPLE name={} input=program {:?} script {:?} detail=run: exit {} output {:?}; debug: exit {} output {:?}", name, src, script, code0, own0, code1, own1));
                 panic!("violation");
             }
         }
